@@ -735,6 +735,14 @@ def check_circuit_slices(fg, res):
                 continue
             si = SliceInfo(fg, fg.operand_nodes(k, rv))
             cf = si.field_names(CIRC) & {"insts", "input_regs", "output_regs"}
+            if not cf and "circ" in si.field_names(CTX):
+                # reached through `ctx.circ.<field>`: the element type names the field
+                if "register_circuit::Inst" in rty:
+                    cf = {"insts"}
+                elif "register_circuit::Reg" in rty:
+                    cf = {"output_regs"}
+                elif "usize" in rty:
+                    cf = {"input_regs"}
             if not cf:
                 continue
             n += 1
@@ -743,7 +751,8 @@ def check_circuit_slices(fg, res):
             for (_b, _bi, t2) in bs.calls:
                 cn = callee_names(t2)
                 if cn and cn[-1].rsplit("::", 1)[-1] in ("len", "min") and t2["args"] and t2["args"][0]["k"] != "const":
-                    if SliceInfo(fg, fg.operand_nodes([kk for kk, bb in fg.bodies.items() if bb is _b][0], t2["args"][0])).field_names(CIRC) & cf:
+                    si2 = SliceInfo(fg, fg.operand_nodes([kk for kk, bb in fg.bodies.items() if bb is _b][0], t2["args"][0]))
+                    if si2.field_names(CIRC) & cf or ("circ" in si2.field_names(CTX) and t2["args"][0]["p"]["ty"].lstrip("&") == rty.lstrip("&")):
                         own_len = True
             if own_len:
                 res.ok("R10.slice", "%s|%s[range]" % (b.owner.rsplit("::", 1)[-1], "/".join(sorted(cf))), where(b, bi), "range bound derived from the vector's own length")
